@@ -114,7 +114,7 @@ def cell_unparseable(cell):
 # ---------------------------------------------------------------------------------------------------------------
 def make_content(vers='2.0', null='-9999', well_extra=(), curves=(('DEPT', 'M', '', '1 DEPTH'),), params=None,
                  frames=(('100.0',),), vdesc=('CWLS LOG ASCII STANDARD - VERSION 2.0', 'ONE LINE PER DEPTH STEP'),
-                 well_head=None):
+                 well_head=None, dups=False):
     """All fields are strings; JSON-able.  params None = no ~P section, [] = an empty one."""
     index = [fr[0] for fr in frames]
     unit0 = curves[0][1]
@@ -135,6 +135,8 @@ def make_content(vers='2.0', null='-9999', well_extra=(), curves=(('DEPT', 'M', 
         'params': None if params is None else [list(x) for x in params],
         'frames': [list(fr) for fr in frames],
     }
+    if dups:
+        c['dups'] = True
     validate(c)
     return c
 
@@ -151,7 +153,9 @@ def validate(c):
     for sect in ('well', 'curves', 'params'):
         lines = c[sect] or []
         mn = [ln[0] for ln in lines]
-        assert len(set(m.strip() for m in mn)) == len(mn), 'duplicate mnemonic'
+        # a mnemonic may come twice in the well and parameter sections (a file recording two runs) when the content says so;
+        # curves stay unique: the reader drops a repeated curve on purpose
+        assert (c.get('dups') and sect != 'curves') or len(set(m.strip() for m in mn)) == len(mn), 'duplicate mnemonic'
         for m, u, v, d in lines:
             assert _RE_MNEM.match(m), m
             assert _RE_UNIT.match(u), u
@@ -190,6 +194,7 @@ CANONICAL = {
     'dtrail': '',        # after the last
     'titles': 'long',    # 'long' ~Version Information ... | 'short' ~V ... | 'cols' ~A followed by the curve names
     'eol': True,         # final newline present
+    'wrapcase': 'upper', # spelling of the WRAP value: YES / Yes / yes
     'nl': '\n',          # line end: line feed, or carriage return + line feed as files written on DOS / Windows have
     'gaps': [],          # [[gap index, filler kind], ...]: gap g is before line g; gap len(lines) is after the last
 }
@@ -208,6 +213,7 @@ DEVIATIONS = [  # single non-gap deviations, simplest first
     ('lead', 1), ('lead', 7), ('trail', 1), ('trail', 7),
     ('sep', '\t'), ('sep', '  \t '), ('dlead', ' '), ('dlead', '\t '), ('dtrail', '  '), ('dtrail', ' \t'),
     ('titles', 'short'), ('titles', 'cols'), ('eol', False), ('nl', '\r\n'),
+    ('wrapcase', 'title'), ('wrapcase', 'lower'),
 ]
 
 TITLES = {
@@ -240,7 +246,8 @@ def content_lines(content, layout):
     wrap = lay['wrap'] is not None
     lines = [titles['V'],
              header_line(['VERS', '', content['vers'], content['vdesc'][0]], lay),
-             header_line(['WRAP', '', 'YES' if wrap else 'NO', content['vdesc'][1]], lay),
+             header_line(['WRAP', '', {'upper': str.upper, 'title': str.title, 'lower': str.lower}[lay['wrapcase']]('YES' if wrap else 'NO'),
+                          content['vdesc'][1]], lay),
              titles['W']]
     lines += [header_line(ln, lay) for ln in content['well']]
     lines.append(titles['C'])
